@@ -772,7 +772,110 @@ func c13One(c *h.Ctx, id string, m *reg.Model, r *rand.Rand, k int) {
 			c.Count("critical_insertions", 1)
 		}
 	}
+	// unknown element insertion INSIDE nested structures (struct fields and sequences of structs): the
+	// statement's "every insertion position" includes positions below the top level, and the caller's
+	// ignore-critical choice must reach the nested parser
+	nestedDone := 0
+	for _, f := range m.Fields {
+		sn := ""
+		if strings.HasPrefix(f.Ann, "struct:") {
+			sn = strings.TrimPrefix(f.Ann, "struct:")
+		} else if i := strings.Index(f.Ann, ":struct:"); i >= 0 && strings.HasPrefix(f.Ann, "sequence:") {
+			sn = f.Ann[i+8:]
+		}
+		if i := strings.Index(sn, ":"); i >= 0 {
+			sn = sn[:i]
+		}
+		ft, ok := c13FieldType(f)
+		if sn == "" || !ok {
+			continue
+		}
+		var nm *reg.Model
+		for _, cand := range reg.Models {
+			if cand.Pkg == m.Pkg && cand.Name == sn {
+				nm = cand
+			}
+		}
+		if nm == nil {
+			continue
+		}
+		nUsed := c13UsedTypes(nm)
+		for _, top := range tops {
+			if top.Type != ft || nestedDone >= 6 {
+				continue
+			}
+			kids, kerr := tlvwalk.Walk(b, top.ValOff, top.End, nil, true)
+			if kerr != nil {
+				continue
+			}
+			inner := []int{top.ValOff}
+			for _, k := range kids {
+				inner = append(inner, k.End)
+			}
+			pos := inner[r.Intn(len(inner))]
+			vl := []int{0, 1, 7}[r.Intn(3)]
+			pay := make([]byte, vl)
+			r.Read(pay)
+			build := func(t uint64) []byte {
+				val := append(append(append([]byte{}, b[top.ValOff:pos]...), tlvwalk.TLV(t, pay)...), b[pos:top.End]...)
+				return append(append(append([]byte{}, b[:top.Off]...), tlvwalk.TLV(top.Type, val)...), b[top.End:]...)
+			}
+			nestedDone++
+			d := map[string]any{"case": desc, "nested_in_field": f.Name, "nested_model": nm.ID(), "inserted_len": vl, "at": pos}
+			if nt := c13Pick(nUsed, nonCritCands, r); nt != 0 {
+				d["inserted_type"] = nt
+				out, err, pi := parse(build(nt), false, r.Intn(3) == 0)
+				switch {
+				case pi != nil:
+					c.Violation("C13:panic:parse-unknown:"+m.ID()+":"+pi.Frame+":"+pi.Class, id, "parser panicked with an unknown non-critical element inserted in a nested structure: "+pi.Value, d)
+				case err != nil:
+					c.Violation("C13:noncritical-rejected:"+m.ID()+":nested", id, fmt.Sprintf("unknown non-critical element (type %d) inside nested %s at offset %d makes parsing fail: %v", nt, nm.Name, pos, err), d)
+				default:
+					if df := same(out); df != "" {
+						c.Violation("C13:noncritical-changes-fields:"+m.ID()+":nested", id, fmt.Sprintf("unknown non-critical element (type %d) inside nested %s at offset %d changes decoded fields: %s", nt, nm.Name, pos, df), d)
+					}
+				}
+				c.Count("nested_noncritical_insertions", 1)
+			}
+			if ct := c13Pick(nUsed, critCands, r); ct != 0 {
+				d["inserted_type"] = ct
+				mut := build(ct)
+				if _, err, pi := parse(mut, false, false); pi != nil {
+					c.Violation("C13:panic:parse-critical:"+m.ID()+":"+pi.Frame+":"+pi.Class, id, "parser panicked with an unknown critical element inserted in a nested structure: "+pi.Value, d)
+				} else if err == nil {
+					c.Violation("C13:critical-accepted:"+m.ID()+":nested", id, fmt.Sprintf("unknown critical element (type %d) inside nested %s at offset %d was not rejected", ct, nm.Name, pos), d)
+				}
+				out, err, pi := parse(mut, true, false)
+				switch {
+				case pi != nil:
+					c.Violation("C13:panic:parse-critical-ignored:"+m.ID()+":"+pi.Frame+":"+pi.Class, id, "parser panicked (ignoreCritical, nested): "+pi.Value, d)
+				case err != nil:
+					c.Violation("C13:critical-ignored-rejected:"+m.ID()+":nested", id, fmt.Sprintf("unknown critical element (type %d) inside nested %s at offset %d rejected although the caller asked to ignore it: %v", ct, nm.Name, pos, err), d)
+				default:
+					if df := same(out); df != "" {
+						c.Violation("C13:critical-ignored-changes-fields:"+m.ID()+":nested", id, fmt.Sprintf("ignored critical element (type %d) inside nested %s at offset %d changes decoded fields: %s", ct, nm.Name, pos, df), d)
+					}
+				}
+				c.Count("nested_critical_insertions", 1)
+			}
+			c.Distinct(m.ID() + "|insert-nested|" + nm.Name)
+		}
+	}
 	c.Sample(map[string]any{"model": m.ID(), "value": c13Describe(val), "wire": h.Hex(b)})
+}
+
+// c13FieldType returns the TLV type number of a field (from its struct tag).
+func c13FieldType(f reg.Field) (uint64, bool) {
+	tag := f.Tag
+	if i := strings.Index(tag, `tlv:"`); i >= 0 {
+		s := tag[i+5:]
+		if j := strings.Index(s, `"`); j >= 0 {
+			if n, err := strconv.ParseUint(strings.TrimPrefix(s[:j], "0x"), 16, 64); err == nil {
+				return n, true
+			}
+		}
+	}
+	return 0, false
 }
 
 // c13Post runs the generator-equivalence part in the orchestrator.
